@@ -212,11 +212,6 @@ pub struct CompressorClient {
 }
 //!end
 impl ChanMsg for CompressRequest { closed spec fn apply(&self, chan: int, sink: Map<(int, int), Seq<u8>>) -> Map<(int, int), Seq<u8>> { sink } }
-pub uninterp spec fn file_name_of(p: Seq<char>) -> Option<Seq<char>>;
-impl path::Path {
-    #[verifier::external_body] pub fn file_name(&self) -> (r: Option<&OsStr>) ensures (r is Some) == (file_name_of(self@) is Some), r matches Some(s) ==> Some(s.s) == file_name_of(self@) { unimplemented!() }
-}
-impl OsStr { #[verifier::external_body] pub fn to_str(&self) -> (r: Option<&str>) ensures (r is Some) == utf8_name(self.s), r matches Some(t) ==> t@ == self.s { unimplemented!() } }
 impl Compressor {
     // one channel and one list of registered archives per thread
     pub open spec fn wf(&self) -> bool {
@@ -257,6 +252,5 @@ impl Compressor {
     }
 //!end
 }
-pub uninterp spec fn utf8_name(n: Seq<char>) -> bool;
 } // verus!
 fn main() {}
